@@ -29,7 +29,17 @@ pub enum Probe {
     /// caller after swapping half (half : proceeds against the post-swap reserves) is subject to the
     /// caller's liquidity_max_slippage like any other deposit, whatever the swap tolerance is
     #[serde(alias = "SingleDeposit")]
-    SingleDep { user: u8, pool: u16, asset: u8, amt: Amt, extra_tols: Vec<u64> },
+    SingleDep {
+        user: u8,
+        pool: u16,
+        asset: u8,
+        amt: Amt,
+        extra_tols: Vec<u64>,
+        /// send no swap_max_slippage: the internal swap is then held to the default 1%, whatever
+        /// the deposit tolerance says
+        #[serde(default)]
+        swap_default: bool,
+    },
     /// route through constant-product pools with max_slippage from a tolerance list (every hop is
     /// subject to the same protection, default and cap as a direct swap)
     RouteTol { user: u8, first_pool: u16, first_offer: u8, hops: Vec<(u16, u8)>, amt: Amt, extra_tols: Vec<u64> },
@@ -65,8 +75,8 @@ fn probe_strat() -> impl Strategy<Value = Probe> {
             .prop_map(|(user, first_pool, first_offer, hops, amt)| Probe::RouteMin { user, first_pool, first_offer, hops, amt }),
         3 => (0u8..4, any::<u16>(), 0u8..4, proptest::collection::vec((any::<u16>(), 0u8..3), 0..3), amt_strat(), tols())
             .prop_map(|(user, first_pool, first_offer, hops, amt, extra_tols)| Probe::RouteTol { user, first_pool, first_offer, hops, amt, extra_tols }),
-        2 => (0u8..4, any::<u16>(), 0u8..2, amt_strat(), tols())
-            .prop_map(|(user, pool, asset, amt, extra_tols)| Probe::SingleDep { user, pool, asset, amt, extra_tols }),
+        3 => (0u8..4, any::<u16>(), 0u8..2, amt_strat(), tols(), proptest::bool::weighted(0.4))
+            .prop_map(|(user, pool, asset, amt, extra_tols, swap_default)| Probe::SingleDep { user, pool, asset, amt, extra_tols, swap_default }),
     ]
 }
 
@@ -523,7 +533,7 @@ impl Protections {
     /// proceeds) against the post-swap reserves; that deposit must pass the documented ratio test
     /// with the caller's DEPOSIT tolerance
     #[allow(clippy::too_many_arguments)]
-    fn run_single_dep(&self, sim: &mut Sim, user: u8, pool: u16, asset: u8, amt: &Amt, extra: &[u64], ascending: bool, st: &mut Stats) -> Result<(), String> {
+    fn run_single_dep(&self, sim: &mut Sim, user: u8, pool: u16, asset: u8, amt: &Amt, extra: &[u64], swap_default: bool, ascending: bool, st: &mut Stats) -> Result<(), String> {
         let obs = sim.obs();
         let cps: Vec<&PoolView> = obs.pools.values().filter(|p| p.all_reserves_positive() && matches!(p.kind, Kind::Cp)).collect();
         if cps.is_empty() {
@@ -540,8 +550,11 @@ impl Protections {
         }
         // the internal swap must pass its own protection at the 50% cap, else the attempt says
         // nothing about the deposit tolerance
-        if cp_swap_decision(&p, oi, ai, half, DEC18 / 2).0 != Decision::MustAccept {
-            st.bump("one-asset deposit: internal swap not surely within 50%");
+        // with no swap tolerance sent the internal swap is held to the default 1%
+        let swap_tol = if swap_default { DEC18 / 100 } else { DEC18 / 2 };
+        let swap_dec = cp_swap_decision(&p, oi, ai, half, swap_tol).0;
+        if swap_dec == Decision::Either || (swap_dec == Decision::MustReject && !swap_default) {
+            st.bump("one-asset deposit: internal swap not decided");
             return Ok(());
         }
         let q = match sim.w.simulate(&p.id, coin(half, &p.denoms[oi]), &p.denoms[ai]) {
@@ -570,7 +583,7 @@ impl Protections {
         for t in list {
             let setting = t.map(|a| Decimal::new(Uint128::new(a)));
             let what = format!(
-                "one-asset deposit of {amount} {} into cp {} (reserves {:?}, fees {:?}/{:?}/{:?}/{:?}e-18; the pool manager swaps {half} for {r} and deposits {half}:{r} against {:?}) with liquidity_max_slippage {:?} and swap_max_slippage 0.5",
+                "one-asset deposit of {amount} {} into cp {} (reserves {:?}, fees {:?}/{:?}/{:?}/{:?}e-18; the pool manager swaps {half} for {r} and deposits {half}:{r} against {:?}) with liquidity_max_slippage {:?} and swap_max_slippage {}",
                 p.denoms[oi],
                 p.id,
                 p.reserves,
@@ -579,10 +592,20 @@ impl Protections {
                 p.burn_fee,
                 p.extra_fees,
                 (p.reserves[oi] + half, p.reserves[ai] - leaves),
-                setting.map(|d| d.to_string())
+                setting.map(|d| d.to_string()),
+                if swap_default { "not sent (default 1%)" } else { "0.5" }
             );
             let (pid, s2, f2) = (p.id.clone(), sender.clone(), vec![coin(amount, &p.denoms[oi])]);
-            let a = attempt(sim, &what, |s| s.w.provide(&s2, &pid, &f2, setting, Some(Decimal::percent(50)), None, None, None))?;
+            let a = attempt(sim, &what, |s| s.w.provide(&s2, &pid, &f2, setting, if swap_default { None } else { Some(Decimal::percent(50)) }, None, None, None))?;
+            if swap_dec == Decision::MustReject {
+                // the swap of the half exceeds the default 1%: the deposit must fail as a whole under
+                // every deposit tolerance
+                if a.ok {
+                    return Err(format!("[C13] {what} (no swap_max_slippage sent): accepted although the internal swap of {half} exceeds the default 1% tolerance"));
+                }
+                st.bump("one-asset deposit attempts refused by the default swap tolerance");
+                continue;
+            }
             let predicted_reject = match t {
                 Some(tv) => {
                     let (okp, near) = ratio_test(&da, &db, &pa, &pb, tv);
@@ -867,7 +890,7 @@ impl Engine for Protections {
                 Probe::SwapTol { user, pool, offer, ask, amt, extra_tols } => self.run_swap(&mut sim, *user, *pool, *offer, *ask, amt, None, extra_tols, asc, st)?,
                 Probe::Belief { user, pool, offer, ask, amt, belief_ppm, extra_tols } => self.run_swap(&mut sim, *user, *pool, *offer, *ask, amt, Some(*belief_ppm), extra_tols, asc, st)?,
                 Probe::Deposit { user, pool, mult_ppm, off_ppm, extra_tols } => self.run_deposit(&mut sim, *user, *pool, *mult_ppm, *off_ppm, extra_tols, asc, st)?,
-                Probe::SingleDep { user, pool, asset, amt, extra_tols } => self.run_single_dep(&mut sim, *user, *pool, *asset, amt, extra_tols, asc, st)?,
+                Probe::SingleDep { user, pool, asset, amt, extra_tols, swap_default } => self.run_single_dep(&mut sim, *user, *pool, *asset, amt, extra_tols, *swap_default, asc, st)?,
                 Probe::RouteMin { user, first_pool, first_offer, hops, amt } => self.run_route(&mut sim, *user, *first_pool, *first_offer, hops, amt, st)?,
                 Probe::RouteTol { user, first_pool, first_offer, hops, amt, extra_tols } => self.run_route_tol(&mut sim, *user, *first_pool, *first_offer, hops, amt, extra_tols, asc, st)?,
             }
@@ -882,7 +905,7 @@ pub fn check(tier: Tier, seed: u64) -> PropReport {
         tier,
         seed,
         "exploration",
-        "cases = world configuration x 1-3 funded pools of both types x 0-7 generated prefix operations x 1-3 probes. A probe sends one message repeatedly with an ASCENDING (boundary-focused) or DESCENDING (monotonicity-focused) list of tolerances (a rejection must leave the complete snapshot unchanged, so the same state is probed again; the first acceptance ends the list): swaps with max_slippage in {none, 0, the state's own slippage ratio -1e-18/+0/+1e-18 (read from Simulation), generated values, 0.5, 0.5+1e-18, 1, 1.5}; swaps with a belief price at 0.8-1.3x the quoted price; routes of 1-3 constant-product hops with the same max_slippage lists (every hop decided exactly); two-asset deposits in exact pool proportion (k x reserves/gcd) or off by a chosen ratio with liquidity_max_slippage in {none, 1, 1+1e-18, 0.5, 0.01, 0, generated}; one-asset deposits into constant-product pools with swap_max_slippage 0.5 and liquidity_max_slippage in {none, 1, 0.5, 0.1, 0.01, 0.001, 0, generated}, where the deposit made for the caller (half : proceeds of the internal swap, against the post-swap reserves from Simulation) must pass the same ratio test with the DEPOSIT tolerance; routes of 1-5 hops with minimum_receive = quote +1, +0, -1. oracles: constant-product swap accepted iff (E - net)/E <= min(tol or 1%, 50%) with E = floor(offer x reserve ratio) in exact rationals (indifference band for the contract's 18-digit price rounding); belief price: accepted iff net >= floor(offer/belief) x (1 - tol); route executed iff quote >= minimum, and delivers >= minimum; constant-product deposit accepted iff both ratio tests of the documented predicate hold (decided when the exact ratios differ by more than 2e-18, the contract's resolution), tolerance > 1 refused, no tolerance never rejects; every pool type: acceptance is monotone in the effective tolerance along the descending lists, an exact-proportion deposit is accepted under every valid tolerance; stableswap swaps: an acceptance implies the loss against the exact pre-trade marginal price (from the exact invariant) is within the tolerance. non-trivial = sequence ending in an acceptance after the checks above; distinct by the generated case",
+        "cases = world configuration x 1-3 funded pools of both types x 0-7 generated prefix operations x 1-3 probes. A probe sends one message repeatedly with an ASCENDING (boundary-focused) or DESCENDING (monotonicity-focused) list of tolerances (a rejection must leave the complete snapshot unchanged, so the same state is probed again; the first acceptance ends the list): swaps with max_slippage in {none, 0, the state's own slippage ratio -1e-18/+0/+1e-18 (read from Simulation), generated values, 0.5, 0.5+1e-18, 1, 1.5}; swaps with a belief price at 0.8-1.3x the quoted price; routes of 1-3 constant-product hops with the same max_slippage lists (every hop decided exactly); two-asset deposits in exact pool proportion (k x reserves/gcd) or off by a chosen ratio with liquidity_max_slippage in {none, 1, 1+1e-18, 0.5, 0.01, 0, generated}; one-asset deposits into constant-product pools with swap_max_slippage 0.5 - or none, in which case the internal swap is held to the default 1% whatever the deposit tolerance is - and liquidity_max_slippage in {none, 1, 0.5, 0.1, 0.01, 0.001, 0, generated}, where the deposit made for the caller (half : proceeds of the internal swap, against the post-swap reserves from Simulation) must pass the same ratio test with the DEPOSIT tolerance; routes of 1-5 hops with minimum_receive = quote +1, +0, -1. oracles: constant-product swap accepted iff (E - net)/E <= min(tol or 1%, 50%) with E = floor(offer x reserve ratio) in exact rationals (indifference band for the contract's 18-digit price rounding); belief price: accepted iff net >= floor(offer/belief) x (1 - tol); route executed iff quote >= minimum, and delivers >= minimum; constant-product deposit accepted iff both ratio tests of the documented predicate hold (decided when the exact ratios differ by more than 2e-18, the contract's resolution), tolerance > 1 refused, no tolerance never rejects; every pool type: acceptance is monotone in the effective tolerance along the descending lists, an exact-proportion deposit is accepted under every valid tolerance; stableswap swaps: an acceptance implies the loss against the exact pre-trade marginal price (from the exact invariant) is within the tolerance. non-trivial = sequence ending in an acceptance after the checks above; distinct by the generated case",
     );
     rep.assumptions = vec!["contracts run natively inside cw-multi-test; a rejected message leaving the snapshot unchanged is verified on every attempt, which is what makes re-probing the same state sound".into()];
     let cases = match tier {
@@ -900,6 +923,7 @@ pub fn check(tier: Tier, seed: u64) -> PropReport {
     rep.floor("cp route attempts decided", cases / 10);
     rep.floor("one-asset deposit attempts decided", cases / 20);
     rep.floor("one-asset deposit attempts rejected by the deposit tolerance", cases / 50);
+    rep.floor("one-asset deposit attempts refused by the default swap tolerance", cases / 100);
     rep.floor("exact-proportion deposits accepted", cases / 50);
     rep.floor("routes accepted at minimum_receive == quote", cases / 20);
     rep.floor("multi-hop routes at the minimum_receive boundary", cases / 100);
